@@ -594,3 +594,24 @@ Theorem C05_unlocated_no_comments : forall st D, unlocated_b D = true ->
   erase_sfile (lay_file st D) = lay_file st D /\ print_file_tokens_nc st D = print_file_tokens st D.
 Proof. exact unlocated_no_comments. Qed.
 Print Assumptions C05_unlocated_no_comments.
+
+(* ---- byte level, the layout test as a LEMMA (second slot of round 4): proofs/ProtoPrintBytesLayoutProofs.v has
+   the general machinery (a line given as tokens + whitespace-only separators is a layout step: items_line; every
+   wp / wend of the writer appends "optional empty line, indentation, line, newline", so a writer step whose lines
+   carry the tokens ts extends every layout by ts: T_wp, T_wgap, T_wend, T_comp, T_wfold, T_final; dotted names:
+   qname_items_ok) and closes it for the FILE HEADER: generated comment, syntax, package (dotted name), sorted
+   imports, file options with their blank lines. Fragment proved: files without declarations. header_ok = the
+   header's tokens are lexable (identifiers are identifiers, literals canonical). Declarations (sections, fields,
+   option forms) remain under the computed test of C05_bytes_roundtrip_subclass. *)
+From J5V.proofs Require Import ProtoPrintBytesLayoutProofs.
+
+Theorem C05_bytes_header_layout : forall gen s, s_exts s = [] -> s_body s = [] -> header_ok gen s = true ->
+  is_layout (emit_file s) (render_sfile gen s) = true.
+Proof. exact render_header_layout. Qed.
+Print Assumptions C05_bytes_header_layout.
+
+Theorem C05_bytes_layout_no_decls : forall gen imp D, d_exts D = [] -> d_body D = [] ->
+  header_ok gen (lay_file (to_symtab (dfile_symtab imp D)) D) = true ->
+  is_layout (print_file_tokens (to_symtab (dfile_symtab imp D)) D) (render_bytes gen imp D) = true.
+Proof. exact bytes_layout_no_decls. Qed.
+Print Assumptions C05_bytes_layout_no_decls.
